@@ -98,6 +98,44 @@ CLAIMS = {
     note="Trusted: Lean kernel; injectivity of SHA-256∘serde_json is a hypothesis; edit catalogue of 10 interface variants; textual JSON mutation; "
          "error-message classification in harness/src/c15.rs. Known finding: core_ir is covered by no digest.",
     technique="Lean 4 proof (invariant by induction over operation histories) + history-level differential correspondence"),
+ "C17": dict(
+    category="proof",
+    text="Lean theorems over a transcription of the four places that name a method's function (definition site and static site in "
+         "compile_match.rs, ETraitCall resolution in mono.rs, vtable wrapper in go/compile.rs, the latter after mono's type-collapsing phase): "
+         "call_forms_static_bounded_agree (for every trait, method, substitution and receiver type the bounded-generic form names the function "
+         "the impl was compiled to, as the static form does), call_forms_agree (additionally the dyn wrapper calls exactly the Go function of "
+         "that definition, for every receiver type without generic applications), inherent_forms_agree, inherent_generic_lookup, "
+         "dyn_requires_impl / no_impl_no_dyn (decision model of coerce_to_expected_dyn), hasVisible_iff. Tied to the Rust by generated programs "
+         "(receiver types x trait/method names, every applicable call form in one program): callee names read off the real Core/Mono/Lift dumps "
+         "and the real goast must equal the model's at every site, and - model-free - the static call, the instance of the bounded function and "
+         "the vtable wrapper must reach one declared Go function; ill-formed programs (dyn without impl, unsatisfied bound, duplicate or "
+         "ambiguous methods) must be rejected.",
+    design_ref="§5 C17, 'C17 — as built'",
+    note="'Same code runs' is identity of the Go function reached; equality of results additionally needs C07/C09 (no Go toolchain to execute). "
+         "For receivers that are instances of generic types the dyn form is proved NOT to agree (dyn_generic_instance_mismatch) - known finding; "
+         "trait bounds are not checked at calls of generic functions - known finding. Single-package programs only; the 16 source anchors of the "
+         "naming sites are re-checked textually on every run (Gen/Dispatch.lean). Trusted: Lean kernel, harness dump scraping, goscope.rs.",
+    technique="Lean 4 proof (unfolding + structural induction on types) + differential correspondence at every naming site of the real pipeline"),
+ "C19": dict(
+    category="proof",
+    text="Lean theorems over a transcription of every name encoder (go_ident, encode_ty, go_type_name_for, ty_compact, trait/inherent method "
+         "names, spec_name_for, instance type names, closure env/apply names, variant struct names, dyn/ref/array helper names, local renaming, "
+         "gensym) with keyword list, escape cases, primitive spellings, runtime helper names and gensym prefixes regenerated from the Rust text: "
+         "goIdent_legal (for EVERY string the result is a legal Go identifier and no keyword; keywords_cover_spec: the table contains the 25 "
+         "keywords of the Go spec), goIdent_injective_on_source_idents, local_vs_temp_disjoint / goLocal_ne_goTemp (a renamed local hint__idx is "
+         "never a temporary prefix++counter, for every gensym prefix in the crate), local_rename_injective, gensym_injective, "
+         "traitImplFnName_injective_partial (#-free components), goTypeNameFor_injective_partial (prims, structs with _-free names, tuples, Vec, "
+         "arrays at any nesting), variant_eq_type_only_if_qualified_partial. The full-strength injectivity statements are FALSE and refuted by "
+         "examples, each replayed on the real encoders and the real pipeline. Tie: exhaustive model-vs-real diff of the seven public encoders "
+         "(all identifiers up to length 4 over {a _ 0 T # / : é}, types exhaustively to depth 2 and sampled to depth 4) plus whole-program name "
+         "predictions; oracle on the real goast::File: one declaration per name and scope, legal identifiers, every reference resolves to the "
+         "entity meant, resolution shape invariant under renaming a user identifier, over templates x an adversarial dictionary.",
+    design_ref="§5 C19, 'C19 — as built'",
+    note="PARTIAL: uniqueness is proved only on the stated fragments; 26 collision classes reachable from source programs are known findings "
+         "(user names equal to runtime helpers / main0 / fmt / temporaries / predeclared len, any; `_` and `#` merged by go_ident; tuple-nesting "
+         "and lower-casing in encode_ty/ref_struct_name; instance names vs user names). Behavioural rename-invariance is checked syntactically "
+         "(alpha-shape of the Go file), not under a Go semantics. Trusted: Lean kernel, extract.py, goscope.rs scope rules, generator templates.",
+    technique="Lean 4 proof (all strings / all types) + translator-regenerated tables + exhaustive encoder diff + scope oracle on real output"),
 }
 
 NOT_YET = "not claimed yet: the model/theorems/tie for this property are still being built (see DESIGN.md §5)"
